@@ -1,81 +1,13 @@
 //! BitFieldVec / AtomicBitFieldVec interpreter, instantiated per word type.
 
-macro_rules! bfv_mod {
-    ($m:ident, $w:ty, $atomic:tt) => {
-        pub mod $m {
-            use crate::core::world::*;
-            use crate::worlds::bits::*;
-            use std::sync::atomic::Ordering;
-            use sux::bits::*;
-            use sux::traits::bit_field_slice::*;
-            use sux::traits::iter::*;
-
-            type W = $w;
-            const WB: usize = <$w>::BITS as usize;
-
-            /// bit-level writer: the independent model of the storage layout
-            fn put(words: &mut [W], width: usize, i: usize, v: u128) {
-                for k in 0..width {
-                    let b = i * width + k;
-                    let (wi, bi) = (b / WB, b % WB);
-                    if (v >> k) & 1 != 0 {
-                        words[wi] |= (1 as W) << bi;
-                    } else {
-                        words[wi] &= !((1 as W) << bi);
-                    }
-                }
-            }
-            fn fetch(words: &[W], width: usize, i: usize) -> u128 {
-                let mut v = 0u128;
-                for k in 0..width {
-                    let b = i * width + k;
-                    if (words[b / WB] >> (b % WB)) & 1 != 0 {
-                        v |= 1u128 << k;
-                    }
-                }
-                v
-            }
-            fn needed(width: usize, len: usize) -> usize {
-                (len * width).div_ceil(WB)
-            }
-            fn clean_words(width: usize, vals: &[u128], extra: usize) -> Vec<W> {
-                let mut w = vec![0 as W; needed(width, vals.len()).max(1) + extra];
-                for (i, &v) in vals.iter().enumerate() {
-                    put(&mut w, width, i, v);
-                }
-                w
-            }
-            fn garbage_words(n: usize, seed: u64, pattern: u8) -> Vec<W> {
-                (0..n).map(|i| garbage_word(seed, i as u64, pattern) as W).collect()
-            }
-
-            enum Obj {
-                Grow(BitFieldVec<W, Vec<W>>),
-                /// simulator-owned storage; views are created per operation
-                Raw { st: Vec<W>, len: usize },
-            }
-
-            struct St<'a, 'b> {
-                case: &'a BitsCase,
-                ctx: &'a mut Ctx<'b>,
-                width: usize,
-                vals: Vec<u128>,
-                /// expected storage for Raw objects
-                mst: Vec<W>,
-                step: usize,
-            }
-
-            fn sig(st: &St, op: &str, what: &str) -> String {
-                let wc = match st.width {
-                    0 => "w0",
-                    x if x == WB => "wfull",
-                    _ => "w",
-                };
-                format!("bits:bfv:{}:{}:{}", op, wc, what)
-            }
-
-            /// Every read operation against the model (shared by growable, raw and chunk views).
-            fn observe<B: AsRef<[W]>>(v: &BitFieldVec<W, B>, st: &mut St, op: &str) {
+// The observers and interpreters of single operations are instantiated once per concrete backend
+// type (never generically over the backend) and written in the method-call syntax a user writes:
+// an inherent method on one concrete `BitFieldVec<W, ...>` type shadows the trait method there and
+// only there, and a generic function would never resolve to it.
+macro_rules! bfv_observe_fn {
+    ($name:ident, $ty:ty) => {
+        #[allow(clippy::all)]
+        fn $name(v: &$ty, st: &mut St, op: &str) {
                 if st.ctx.failed() {
                     return;
                 }
@@ -143,29 +75,12 @@ macro_rules! bfv_mod {
                     }
                 }
             }
-
-            fn check_storage(st: &mut St, actual: &[W], op: &str) {
-                if st.ctx.failed() {
-                    return;
-                }
-                st.ctx.out.checks += 1;
-                if actual != &st.mst[..] {
-                    let wi = actual.iter().zip(&st.mst).position(|(a, b)| a != b).unwrap_or(0);
-                    let x = actual[wi] ^ st.mst[wi];
-                    let bit = wi * WB + x.trailing_zeros() as usize;
-                    let inside = bit < st.vals.len() * st.width;
-                    let s = sig(st, op, if inside { "storage_bit_wrong" } else { "slack_modified" });
-                    st.ctx.fail(
-                        if inside { "storage" } else { "slack_modified" },
-                        s,
-                        format!("after step {} ({op}) storage word {wi} = {:#x}, first differing bit {bit} ({} the contents of {} elements x {} bits)", st.step, actual[wi], if inside { "inside" } else { "outside" }, st.vals.len(), st.width),
-                        format!("{:#x}", st.mst[wi]),
-                    );
-                }
-            }
-
-            /// Operations available on any backend.
-            fn common<B: AsRef<[W]> + AsMut<[W]>>(v: &mut BitFieldVec<W, B>, st: &mut St, op: &Op) -> bool {
+    };
+}
+macro_rules! bfv_common_fn {
+    ($name:ident, $ty:ty) => {
+        #[allow(clippy::all)]
+        fn $name(v: &mut $ty, st: &mut St, op: &Op) -> bool {
                 let n = st.vals.len();
                 let width = st.width;
                 match op {
@@ -361,8 +276,12 @@ macro_rules! bfv_mod {
                     _ => false,
                 }
             }
-
-            fn read_only<B: AsRef<[W]>>(v: &BitFieldVec<W, B>, st: &mut St, op: &Op, has_padding: bool) {
+    };
+}
+macro_rules! bfv_read_only_fn {
+    ($name:ident, $ty:ty) => {
+        #[allow(clippy::all)]
+        fn $name(v: &$ty, st: &mut St, op: &Op, has_padding: bool) {
                 let n = st.vals.len();
                 let width = st.width;
                 match op {
@@ -460,6 +379,114 @@ macro_rules! bfv_mod {
                     _ => {}
                 }
             }
+    };
+}
+
+macro_rules! bfv_mod {
+    ($m:ident, $w:ty, $atomic:tt) => {
+        pub mod $m {
+            use crate::core::world::*;
+            use crate::worlds::bits::*;
+            use std::sync::atomic::Ordering;
+            use sux::bits::*;
+            use sux::traits::bit_field_slice::*;
+            use sux::traits::iter::*;
+
+            type W = $w;
+            const WB: usize = <$w>::BITS as usize;
+
+            /// bit-level writer: the independent model of the storage layout
+            fn put(words: &mut [W], width: usize, i: usize, v: u128) {
+                for k in 0..width {
+                    let b = i * width + k;
+                    let (wi, bi) = (b / WB, b % WB);
+                    if (v >> k) & 1 != 0 {
+                        words[wi] |= (1 as W) << bi;
+                    } else {
+                        words[wi] &= !((1 as W) << bi);
+                    }
+                }
+            }
+            fn fetch(words: &[W], width: usize, i: usize) -> u128 {
+                let mut v = 0u128;
+                for k in 0..width {
+                    let b = i * width + k;
+                    if (words[b / WB] >> (b % WB)) & 1 != 0 {
+                        v |= 1u128 << k;
+                    }
+                }
+                v
+            }
+            fn needed(width: usize, len: usize) -> usize {
+                (len * width).div_ceil(WB)
+            }
+            fn clean_words(width: usize, vals: &[u128], extra: usize) -> Vec<W> {
+                let mut w = vec![0 as W; needed(width, vals.len()).max(1) + extra];
+                for (i, &v) in vals.iter().enumerate() {
+                    put(&mut w, width, i, v);
+                }
+                w
+            }
+            fn garbage_words(n: usize, seed: u64, pattern: u8) -> Vec<W> {
+                (0..n).map(|i| garbage_word(seed, i as u64, pattern) as W).collect()
+            }
+
+            enum Obj {
+                Grow(BitFieldVec<W, Vec<W>>),
+                /// simulator-owned storage; views are created per operation
+                Raw { st: Vec<W>, len: usize },
+            }
+
+            struct St<'a, 'b> {
+                case: &'a BitsCase,
+                ctx: &'a mut Ctx<'b>,
+                width: usize,
+                vals: Vec<u128>,
+                /// expected storage for Raw objects
+                mst: Vec<W>,
+                step: usize,
+            }
+
+            fn sig(st: &St, op: &str, what: &str) -> String {
+                let wc = match st.width {
+                    0 => "w0",
+                    x if x == WB => "wfull",
+                    _ => "w",
+                };
+                format!("bits:bfv:{}:{}:{}", op, wc, what)
+            }
+
+            /// Every read operation against the model (shared by growable, raw and chunk views).
+            bfv_observe_fn!(observe_vec, BitFieldVec<W, Vec<W>>);
+            bfv_observe_fn!(observe_box, BitFieldVec<W, Box<[W]>>);
+            bfv_observe_fn!(observe_ref, BitFieldVec<W, &[W]>);
+
+            fn check_storage(st: &mut St, actual: &[W], op: &str) {
+                if st.ctx.failed() {
+                    return;
+                }
+                st.ctx.out.checks += 1;
+                if actual != &st.mst[..] {
+                    let wi = actual.iter().zip(&st.mst).position(|(a, b)| a != b).unwrap_or(0);
+                    let x = actual[wi] ^ st.mst[wi];
+                    let bit = wi * WB + x.trailing_zeros() as usize;
+                    let inside = bit < st.vals.len() * st.width;
+                    let s = sig(st, op, if inside { "storage_bit_wrong" } else { "slack_modified" });
+                    st.ctx.fail(
+                        if inside { "storage" } else { "slack_modified" },
+                        s,
+                        format!("after step {} ({op}) storage word {wi} = {:#x}, first differing bit {bit} ({} the contents of {} elements x {} bits)", st.step, actual[wi], if inside { "inside" } else { "outside" }, st.vals.len(), st.width),
+                        format!("{:#x}", st.mst[wi]),
+                    );
+                }
+            }
+
+            /// Operations available on any backend.
+            bfv_common_fn!(common_vec, BitFieldVec<W, Vec<W>>);
+            bfv_common_fn!(common_mut, BitFieldVec<W, &mut [W]>);
+
+            bfv_read_only_fn!(read_only_vec, BitFieldVec<W, Vec<W>>);
+            bfv_read_only_fn!(read_only_mut, BitFieldVec<W, &mut [W]>);
 
             bfv_mod!(@atomic $atomic);
 
@@ -523,10 +550,10 @@ macro_rules! bfv_mod {
                     }
                 };
                 match &mut obj {
-                    Obj::Grow(v) => observe(&*v, &mut st, "init"),
+                    Obj::Grow(v) => observe_vec(&*v, &mut st, "init"),
                     Obj::Raw { st: w, len } => {
                         let v: BitFieldVec<W, &[W]> = unsafe { BitFieldVec::from_raw_parts(&w[..], st.width, *len) };
-                        observe(&v, &mut st, "init");
+                        observe_ref(&v, &mut st, "init");
                     }
                 }
                 for (si, op) in case.ops.iter().enumerate() {
@@ -587,7 +614,7 @@ macro_rules! bfv_mod {
                                     set_op("bfv:box_roundtrip");
                                     let taken = std::mem::replace(v, BitFieldVec::<W>::new(0, 0));
                                     let b: BitFieldVec<W, Box<[W]>> = taken.into();
-                                    observe(&b, &mut st, "into_box");
+                                    observe_box(&b, &mut st, "into_box");
                                     *v = b.into();
                                     true
                                 }
@@ -622,7 +649,7 @@ macro_rules! bfv_mod {
                                             let taken = std::mem::replace(v, BitFieldVec::<W>::new(0, 0));
                                             *v = atomic_reject(taken, &mut st, *k);
                                         }
-                                        _ => read_only(&*v, &mut st, op, false),
+                                        _ => read_only_vec(&*v, &mut st, op, false),
                                     }
                                     true
                                 }
@@ -630,11 +657,11 @@ macro_rules! bfv_mod {
                             };
                             if !handled {
                                 let has_pad = matches!(case.init, Init::NewUnaligned { .. }) && !case.ops[..si].iter().any(|o| matches!(o, Op::Push(_) | Op::Resize(..) | Op::Extend(_) | Op::Clear | Op::Pop));
-                                if !common(v, &mut st, op) {
-                                    read_only(&*v, &mut st, op, has_pad);
+                                if !common_vec(v, &mut st, op) {
+                                    read_only_vec(&*v, &mut st, op, has_pad);
                                 }
                             }
-                            observe(&*v, &mut st, &opname);
+                            observe_vec(&*v, &mut st, &opname);
                         }
                         Obj::Raw { st: w, len } => {
                             let n = *len;
@@ -680,10 +707,10 @@ macro_rules! bfv_mod {
                                 _ => {
                                     let modified = {
                                         let mut v: BitFieldVec<W, &mut [W]> = unsafe { BitFieldVec::from_raw_parts(&mut w[..], width, n) };
-                                        let m = common(&mut v, &mut st, op);
+                                        let m = common_mut(&mut v, &mut st, op);
                                         if !m {
                                             let has_pad = w_has_padding(width, n, v.as_slice().len());
-                                            read_only(&v, &mut st, op, has_pad);
+                                            read_only_mut(&v, &mut st, op, has_pad);
                                         }
                                         m
                                     };
@@ -696,7 +723,7 @@ macro_rules! bfv_mod {
                                 }
                             }
                             let v: BitFieldVec<W, &[W]> = unsafe { BitFieldVec::from_raw_parts(&w[..], width, n) };
-                            observe(&v, &mut st, &opname);
+                            observe_ref(&v, &mut st, &opname);
                         }
                     }
                 }
